@@ -54,7 +54,7 @@ def case_kind(case):
 
 
 def case_mlen(case):
-    return {"codon": 3, "dinuc": 2}.get(case_kind(case), 1)
+    return {"codon": 3, "trinuc": 3, "dinuc": 2}.get(case_kind(case), 1)
 
 
 def model_class(m):
@@ -167,6 +167,9 @@ IUPAC_AA = {**{a: a for a in AA}, "B": "DN", "Z": "EQ", "X": AA, "?": AA, "-": A
 def spec_leaf_set(motif, alphabet, moltype):
     """set of alphabet indices compatible with an observed (possibly degenerate) motif; None = not a legal observation"""
     table = IUPAC_AA if moltype == "protein" else IUPAC_DNA
+    if moltype != "protein" and any("-" in a for a in alphabet):
+        # the model has the gap as a state of its own: '-' is that state, '?' (missing) is any state incl. the gap
+        table = dict(IUPAC_DNA, **{"-": "-", "?": "ACGT-"})
     try:
         sets = [table[c] for c in motif]
     except KeyError:
@@ -219,7 +222,7 @@ def rand_alignment(rng, names, kind, ncols, words=None, recode=True):
         else:
             cols.append(rand_column(rng, len(names), kind, words))
     rows = [[n, "".join(c[i] for c in cols)] for i, n in enumerate(names)]
-    if not recode:
+    if not recode and not (words and any("-" in w for w in words)):
         rows = [[n, s_.replace("-", "?")] for n, s_ in rows]
     return rows
 
@@ -360,16 +363,26 @@ def dinuc_subset(rng):
     return sorted(a + b for a in s1 for b in s2)
 
 
-def built_case(rng, tier, kind=None, mprob_model=None, subset=None):
+def built_case(rng, tier, kind=None, mprob_model=None, subset=None, gaps=None):
     """directly built models: TimeReversible{Nucleotide,Dinucleotide,Codon} x motif-prob model x motifs= subset
     x recode_gaps, with '?' inside words"""
-    kind = kind or rng.choice(["codon", "codon", "dinuc", "dinuc", "nuc"])
+    kind = kind or rng.choice(["codon", "codon", "dinuc", "dinuc", "nuc", "trinuc", "nuc"])
     gc = None
+    if gaps is None:
+        gaps = kind in ("nuc", "dinuc", "trinuc") and rng.random() < 0.35
     mp = mprob_model or (rng.choice(MPROB_MODELS) if kind != "nuc" else None)
+    if gaps:
+        mp = "tuple"     # required by cogent3 for gap models
     build = {"kind": kind, "mprob_model": mp, "predicates": "kappa+omega" if kind == "codon" else "kappa"}
     words = None
-    if kind == "nuc":
+    if gaps:
+        # the gap is a state: 5 / 25 / 125 states ("published" definition: see published_word_Q)
+        build["model_gaps"] = True
+        words = ["".join(w) for w in itertools.product(DNA + "-", repeat={"nuc": 1, "dinuc": 2, "trinuc": 3}[kind])]
+    elif kind == "nuc":
         build["predicates"] = rand_symmetric_predicates(rng)
+    elif kind == "trinuc":
+        words = list(ALL_CODONS)
     elif kind == "dinuc":
         words = list(DINUCS)
         if subset or (subset is None and rng.random() < 0.5):
@@ -378,8 +391,10 @@ def built_case(rng, tier, kind=None, mprob_model=None, subset=None):
     else:
         gc = rng.choice([None, 1, 2, 4, 5, 6])
         words = sense_codons(gc)
-    recode = rng.random() < 0.4
+    recode = rng.random() < 0.4 and not gaps
     ntips = rng.randint(3, 4 if kind != "nuc" else 6)
+    if kind == "trinuc":
+        ntips = 3
     tree = rand_tree(rng, ntips)
     names = tips(tree)
     rng.shuffle(names)
@@ -391,8 +406,10 @@ def built_case(rng, tier, kind=None, mprob_model=None, subset=None):
         case["scoped"] = rand_scope(rng, tree)
     if kind == "codon" and rng.random() < 0.8:
         case["history"] = rand_history(rng, case)
-    if rng.random() < 0.2:
+    if rng.random() < 0.2 and kind != "trinuc":
         case["bins"] = rand_bins(rng, [2, 3], [0.5, 1.0, 2.0])
+    if kind == "trinuc" and gaps:
+        case["no_model"] = True   # 125 states: too large as a Coq literal; implementation vs oracles only
     return case
 
 
@@ -657,6 +674,8 @@ def published_kind(case, obs):
     if b:
         if b["kind"] == "codon" and b.get("predicates") == "kappa+omega" and obs.get("mprob_model") in ("tuple", "monomer"):
             return "codon-" + obs["mprob_model"]
+        if b["kind"] in ("nuc", "dinuc", "trinuc") and b.get("predicates") == "kappa" and obs.get("mprob_model") == "tuple":
+            return "word-tuple"
         return None
     m = case["model"]
     if m in NUC_REV:
@@ -691,6 +710,40 @@ def published_codon_Q(kind, alphabet, pi, nuc_pi, par, gc):
         Q[i, i] = -Q[i].sum()
     scale = -sum(pi[i] * Q[i, i] for i in range(n))
     return Q / scale
+
+
+def one_indel(x, y):
+    """x and y differ by exactly one insertion/deletion event and nothing else: the differing positions form ONE
+    contiguous run, and at every one of them the gap is on the same side"""
+    diff = [k for k in range(len(x)) if x[k] != y[k]]
+    if not diff or diff != list(range(diff[0], diff[-1] + 1)):
+        return False
+    return all(x[k] == "-" for k in diff) or all(y[k] == "-" for k in diff)
+
+
+def published_word_Q(alphabet, pi, par):
+    """word (1 / 2 / 3 nucleotides, optionally with the gap as a fifth state) model with tuple probabilities:
+    x -> y is instantaneous iff the two words differ at exactly one position, or (gap models) by exactly one
+    contiguous indel; rate = pi_y, times kappa when the single changed position is a transition"""
+    import numpy
+
+    n = len(alphabet)
+    Q = numpy.zeros((n, n))
+    for i, a in enumerate(alphabet):
+        for j, b in enumerate(alphabet):
+            if i == j:
+                continue
+            diff = [k for k in range(len(a)) if a[k] != b[k]]
+            if len(diff) == 1:
+                r = pi[j] * (par["kappa"] if frozenset((a[diff[0]], b[diff[0]])) in TRANSITIONS else 1.0)
+            elif one_indel(a, b):
+                r = pi[j]
+            else:
+                continue
+            Q[i, j] = r
+    for i in range(n):
+        Q[i, i] = -Q[i].sum()
+    return Q / -sum(pi[i] * Q[i, i] for i in range(n))
 
 
 def edge_params(case, obs, e, scope):
@@ -732,6 +785,7 @@ def published_psubs(case, obs):
             k = tuple(sorted(par.items()))
             if k not in cache:
                 cache[k] = (published_Q(model, obs["alphabet"], pi, par) if kind == "nuc"
+                            else published_word_Q(obs["alphabet"], pi, par) if kind == "word-tuple"
                             else published_codon_Q(kind, obs["alphabet"], pi, nuc_pi, par, case.get("gc")))
             d[e] = expm(cache[k] * (t * r))
         out.append(d)
@@ -927,6 +981,20 @@ def param_checks(case, obs):
                                      broken="a parameter has the wrong value on an edge: the scope (edges= / tip_names + stem / clade) "
                                             "was not applied to exactly the edges it names")
     pi = obs.get("pi")
+    if case.get("from_align") and pi is not None and len(pi) == 4 and obs.get("alphabet"):
+        # motif probabilities taken from the alignment (constant): the composition of the unambiguous symbols,
+        # whatever pseudocount was passed (a pseudocount is for free motif probabilities with zero counts)
+        cnt = {a: 0 for a in obs["alphabet"]}
+        for _, seq in case["aln"]:
+            for ch in seq:
+                if ch in cnt:
+                    cnt[ch] += 1
+        tot = sum(cnt.values())
+        if tot and min(cnt.values()) > 0:
+            want_pi = [cnt[a] / tot for a in obs["alphabet"]]
+            if max(abs(x - y) for x, y in zip(want_pi, pi)) > 1e-12:
+                return "mprobs-from-align", dict(expected_by_spec=want_pi, observed_impl=pi,
+                                                 broken="motif probabilities from the alignment are not the composition of the alignment")
     if pi is not None and (abs(math.fsum(pi) - 1) > 1e-9 or min(pi) < 0):
         return "root-probs-sum", dict(expected_by_spec=1.0, observed_impl=math.fsum(pi),
                                       broken="root (word) probabilities do not sum to 1")
@@ -1142,8 +1210,8 @@ def nontrivial(case, obs):
 
 def build_cases(rng, tier):
     quick = tier == "quick"
-    n_random = 48 if quick else 2000
-    n_built = 18 if quick else 400
+    n_random = 36 if quick else 2000
+    n_built = 14 if quick else 400
     cases = [dict(c) for c in CORPUS]
     for k, m in enumerate(NUC_REV + NUC_NONREV if not quick else ["JC69", "HKY85", "GTR", "GN"]):
         cases.append(allcols_case(rng, 3 + (k % 2), m))
@@ -1157,6 +1225,11 @@ def build_cases(rng, tier):
         for mp in MPROB_MODELS:
             cases.append(built_case(rng, tier, kind, mp))
     cases += [built_case(rng, tier) for _ in range(n_built)]
+    # gap-as-a-state models (nucleotide, dinucleotide, trinucleotide) and gap-free trinucleotide models
+    for rnd in range(1 if quick else 15):
+        for kind in ("nuc", "dinuc", "trinuc"):
+            cases.append(built_case(rng, tier, kind, "tuple", gaps=True))
+        cases.append(built_case(rng, tier, "trinuc", MPROB_MODELS[rnd % 4], gaps=False))
     # every stem / clade combination of a tip_names scope (with and without an outgroup by chance), on trees that
     # have internal nodes, over models with and without a published-definition oracle
     scope_models = [["HKY85"], ["GTR"], ["GN"], ["TN93"], ["GY94"], ["F81"], ["MG94HKY"]]
@@ -1167,7 +1240,7 @@ def build_cases(rng, tier):
     return cases
 
 
-DIMS = dict(alphabet=["nuc", "dinuc", "codon", "protein"], recode_gaps=["recode", "norecode"],
+DIMS = dict(alphabet=["nuc", "dinuc", "trinuc", "codon", "protein"], recode_gaps=["recode", "norecode"],
             mprob_model=["tuple", "monomer", "monomers", "conditional"], bins=["nobins", "equal", "unequal", "hmm-equal", "hmm-unequal"],
             origin=["named", "built"], lengths=["normal", "tiny"])
 
@@ -1209,7 +1282,7 @@ def distribution_matrix(pairs):
             return m == "tuple" and o == "named"
         if a == "nuc":
             return m == "tuple" or (m == "conditional" and o == "named")
-        if a == "dinuc":
+        if a in ("dinuc", "trinuc"):
             return o == "built"
         if o == "named":
             return m != "monomers"
@@ -1257,7 +1330,7 @@ def run(tier: str, seed: int) -> int:
         idx = sorted(exacts)
         # 20/61-state cases are expensive as Coq literals: the model is evaluated on a bounded number of them
         # (the others are still compared implementation-vs-oracle)
-        big_budget = 6 if tier == "quick" else 100
+        big_budget = 4 if tier == "quick" else 100
         keep = []
         for i in idx:
             if cases[i].get("no_model"):
